@@ -339,3 +339,54 @@ class Project:
 
     def subclasses_of(self, base_simple_name: str) -> list[ClassInfo]:
         return [c for c in self.all_classes() if base_simple_name in self.base_names(c)]
+
+
+# ------------------------------------------------------------------------------------------------ alpha-invariant text
+def local_names(fn: ast.AST) -> set[str]:
+    """Names bound inside the function (assignments, loop / comprehension / with / except targets, walrus), parameters excluded."""
+    params: set[str] = set()
+    a = getattr(fn, "args", None)
+    if a is not None:
+        params = {x.arg for x in a.posonlyargs + a.args + a.kwonlyargs}
+        if a.vararg:
+            params.add(a.vararg.arg)
+        if a.kwarg:
+            params.add(a.kwarg.arg)
+    out: set[str] = set()
+    for n in ast.walk(fn):
+        if isinstance(n, ast.Name) and isinstance(n.ctx, ast.Store):
+            out.add(n.id)
+        elif isinstance(n, ast.ExceptHandler) and n.name:
+            out.add(n.name)
+    return out - params
+
+
+def anorm(node: ast.AST | str, fn: ast.AST | None = None, rename: set[str] | None = None) -> str:
+    """`norm` with local variable names replaced by v0, v1, ... in order of first appearance in `node`.
+
+    Two constructs that differ only in the spelling of local variables have the same anorm. `rename` (or the locals of `fn`)
+    says which names are local; everything else (parameters, attributes, module-level names, builtins) is kept."""
+    import copy
+    if isinstance(node, str):
+        node = ast.parse(node)
+    names = set(rename) if rename is not None else (local_names(fn) if fn is not None else set())
+    if fn is None and rename is None:
+        names = {n.id for n in ast.walk(node) if isinstance(n, ast.Name) and isinstance(n.ctx, ast.Store)}
+    tree = copy.deepcopy(node)
+    order: dict[str, str] = {}
+    class _R(ast.NodeTransformer):
+        def visit_Name(self, n):
+            if n.id in names:
+                if n.id not in order:
+                    order[n.id] = f"v{len(order)}"
+                return ast.copy_location(ast.Name(id=order[n.id], ctx=n.ctx), n)
+            return n
+        def visit_ExceptHandler(self, n):
+            self.generic_visit(n)
+            if n.name in names:
+                if n.name not in order:
+                    order[n.name] = f"v{len(order)}"
+                n.name = order[n.name]
+            return n
+    tree = _R().visit(tree)
+    return norm(tree)
